@@ -14,7 +14,8 @@
    tcinit <hexprefix>                 TunnelCommunity.__init__ on this endpoint
    rmreq <cid> | rmdone <cid>         remove_circuit: close at once / pop after remove_tunnel_delay
    listener <lid> <0|1|none>          add_listener
-   notify <0|1>                       notify_listeners(from_tunnel)
+   notify <0|1> <hexpacket>           notify_listeners((origin, packet), from_tunnel); deliveries printed sorted by id
+   unload <lid>                       Community.unload of the overlay with that listener id
    dump                               canonical state
    consts                             the generated constants
    seq <cap|-> <op_args;op_args;…>    run a whole history from a fresh endpoint: last reply | dump
@@ -42,8 +43,13 @@ def showEvent : Event → String
   | .fail a p => s!"fail:{a}:{Proto.toHex p}"
   | .deliver l => s!"deliver:{l}"
 
+def deliverIds (evs : List Event) : List Nat :=
+  (evs.filterMap (fun e => match e with | .deliver i => some i | _ => none)).mergeSort (fun a b => decide (a ≤ b))
+
 def showEvents (evs : List Event) (s : State) : String :=
-  (if evs.isEmpty then "-" else " ".intercalate (evs.map showEvent)) ++ s!" q={s.queue.length}"
+  let other := evs.filter (fun e => match e with | .deliver _ => false | _ => true)
+  let strs := other.map showEvent ++ (deliverIds evs).map (fun i => s!"deliver:{i}")
+  (if strs.isEmpty then "-" else " ".intercalate strs) ++ s!" q={s.queue.length}"
 
 def ctypeOf? : String → Option CType
   | "0" => some .data | "1" => some .ipSeeder | "2" => some .rpSeeder | "3" => some .rpDownloader | _ => none
@@ -68,6 +74,8 @@ def dump (s : State) : String :=
     ++ " circ=" ++ Proto.showStrList (s.comm.circuits.map showCircuit)
     ++ " lis=" ++ Proto.showStrList (s.listeners.map (fun l => s!"{l.lid}:" ++ (match l.anonymize with
         | some b => b01 b | none => "none")))
+    ++ " plis=" ++ Proto.showStrList ((s.plisteners.map (fun e => s!"{e.2.lid}:{Proto.toHex e.1}:" ++ (match e.2.anonymize with
+        | some b => b01 b | none => "none"))).mergeSort (fun a b => decide (a ≤ b)))
 
 def be16 (n : Nat) : Bytes := [UInt8.ofNat (n / 256 % 256), UInt8.ofNat (n % 256)]
 
@@ -93,7 +101,8 @@ def parseOp (toks : List String) : Option Op :=
   | ["listener", l, a] => do
       let an ← if a == "none" then some none else (bool? a).map some
       some (.addListener { lid := (← l.toNat?), anonymize := an })
-  | ["notify", b] => do some (.notify (← bool? b))
+  | ["notify", b, p] => do some (.notify (← bool? b) (← Proto.ofHex? p))
+  | ["unload", l] => do some (.unloadOverlay (← l.toNat?))
   | _ => none
 
 def countEv (evs : List Event) : Nat × Nat × Nat × Nat :=
@@ -180,6 +189,18 @@ def letterOp (alpha : String) (l i : Nat) (s : State) : Option Op :=
     | 6 => some (.setAnonymity PA true)
     | 7 => some (.setAnonymity PA false)
     | _ => none
+  else if alpha == "D" then   -- delivery by origin to real Community objects (registered by prefix) and global listeners
+    match l with
+    | 0 => some (.overlay (PA.drop 2) true)
+    | 1 => some (.overlay (PA.drop 2) false)
+    | 2 => some (.overlay (PB.drop 2) true)
+    | 3 => some (.addListener { lid := 1 + i, anonymize := some true })
+    | 4 => some (.addListener { lid := 1 + i, anonymize := none })
+    | 5 => some (.notify true (PA ++ [UInt8.ofNat i]))
+    | 6 => some (.notify false (PA ++ [UInt8.ofNat i]))
+    | 7 => some (.notify true (PB ++ [UInt8.ofNat i]))
+    | 8 => some (.unloadOverlay 1000)
+    | _ => none
   else if alpha == "B" then
     match l with
     | 0 => some (.send 1 (PA ++ [UInt8.ofNat i]))
@@ -231,7 +252,7 @@ def enumCmd (alpha : String) (k cap len : Nat) (pre : List Nat) : String :=
   else " ".intercalate (enumGo alpha k s last pos (len - pre.length) #[]).toList
 
 def alphaSize (alpha : String) : Nat :=
-  if alpha == "A" then 10 else if alpha == "B" then 12 else if alpha == "T" then 8 else if alpha == "C" then 8 else 0
+  if alpha == "A" then 10 else if alpha == "B" then 12 else if alpha == "T" then 8 else if alpha == "C" then 8 else if alpha == "D" then 9 else 0
 
 def top (s : State) (toks : List String) : State × String :=
   match toks with
